@@ -40,7 +40,8 @@ EmplaceBack(c, v) == ex[c] /\ Set(c, Append(el[c], v))
 Insert(c, p, v) == ex[c] /\ cap = 0 /\ p \in 0..Len(el[c]) /\ Set(c, Ins(el[c], p, v))
 Emplace(c, p, v) == ex[c] /\ cap = 0 /\ p \in 0..Len(el[c]) /\ Set(c, Ins(el[c], p, v))
 Erase(c, a, b) == ex[c] /\ a \in 0..Len(el[c]) /\ b \in a..Len(el[c]) /\ Set(c, Era(el[c], a, b))
-EraseFrom(c, a) == ex[c] /\ cap = 0 /\ a \in 0..Len(el[c]) /\ Set(c, SubSeq(el[c], 1, a))
+\* erase(pos): exactly the element at pos goes, as in std::vector
+EraseAt(c, a) == ex[c] /\ cap = 0 /\ a \in 0..(Len(el[c]) - 1) /\ Set(c, Era(el[c], a, a + 1))
 PopBack(c) == ex[c] /\ cap = 0 /\ el[c] # <<>> /\ Set(c, SubSeq(el[c], 1, Len(el[c]) - 1))
 Resize(c, n) == ex[c] /\ Set(c, Rsz(el[c], n))
 Reserve(c, n) == ex[c] /\ cap = 0 /\ Set(c, el[c])
@@ -64,7 +65,7 @@ Next == \/ \E c \in C : Create(c)
         \/ \E c \in C, p \in 0..MaxSize, v \in Vals : Insert(c, p, v)
         \/ \E c \in C, p \in 0..MaxSize, v \in Vals : Emplace(c, p, v)
         \/ \E c \in C, a \in 0..MaxSize, b \in 0..MaxSize : Erase(c, a, b)
-        \/ \E c \in C, a \in 0..MaxSize : EraseFrom(c, a)
+        \/ \E c \in C, a \in 0..MaxSize : EraseAt(c, a)
         \/ \E c \in C : PopBack(c)
         \/ \E c \in C, n \in 0..(MaxSize + 1) : Resize(c, n)
         \/ \E c \in C, n \in 0..(MaxSize + 1) : Reserve(c, n)
